@@ -1,10 +1,151 @@
 import MazeVerif.DriverOps.Util
+import MazeVerif.Model.Serial
 namespace MZ.Drv.C05
-open Lean MZ.Drv
+open Lean MZ.Drv MZ.Serial
 
-/-- driver ops of property C05 (`"op": "C05.<name>"`) -/
-def handle (op : String) (_j : Json) : R Json := do
+/-! driver ops of property C05. The abstract parameters of the model are instantiated with observable tags:
+    config = (grid_n, number of `collect_generation_meta` records appended), per-maze meta = Unit (presence),
+    collected meta = number of per-maze dicts it was collected from (`none` if it was present before). -/
+
+abbrev K := Nat × Nat
+abbrev Mu := Unit
+abbrev M := Nat
+
+def env : Env K Mu M :=
+  { gridN := fun c => c.1, addCollectFilter := fun c => (c.1, c.2 + 1), collect := fun l => l.length + 1,
+    cfgJson := id, metaJson := id, mazeMetaJson := id }
+
+def bitsOfString (s : String) : List Bool := s.toList.map (· == '1')
+def stringOfBits (l : List Bool) : String := String.ofList (l.map fun b => if b then '1' else '0')
+
+def asMaze (j : Json) : R (Maze Mu) := do
+  let g ← getNat j "g"
+  let cl ← getStr j "clist"
+  let sol ← getCells j "sol"
+  let s ← getCell j "start"
+  let e ← getCell j "end"
+  let hasMeta ← getBool j "meta"
+  pure { gridN := g, clist := bitsOfString cl, sol, startPos := s, endPos := e, gmeta := if hasMeta then some () else none }
+
+def asDS (j : Json) : R (DS K Mu M) := do
+  let g ← getNat j "grid_n"
+  let ms ← (← getArr j "mazes").mapM asMaze
+  let coll ← getBool j "collected"
+  pure { cfg := (g, 0), mazes := ms, collected := if coll then some 0 else none }
+
+def asThr (j : Json) : R (Option Int) :=
+  match j with
+  | Json.null => pure none
+  | v => do pure (some (← v.getInt?))
+
+def getThr (j : Json) (k : String) : R (Option Int) :=
+  match j.getObjVal? k with
+  | .ok v => asThr v
+  | .error _ => pure none
+
+/-- observed `np.empty` contents: `pad[i]` = the entries of row `i` behind the solution -/
+def asPad (j : Json) (lens : List Nat) : R (Nat → Nat → Coord) := do
+  match optFld j "pad" with
+  | none => pure fun _ _ => (0, 0)
+  | some p =>
+    let rows ← (← p.getArr?).toList.mapM fun r => do (← r.getArr?).toList.mapM asCell
+    pure fun i k => ((rows[i]?).bind (·[k - lens.getD i 0]?)).getD (0, 0)
+
+def jMaze (m : Maze Mu) : Json :=
+  obj [("g", jNat m.gridN), ("clist", Json.str (stringOfBits m.clist)), ("sol", jCells m.sol), ("start", jCell m.startPos),
+       ("end", jCell m.endPos), ("meta", Json.bool m.gmeta.isSome)]
+
+def jDS (d : DS K Mu M) : Json :=
+  obj [("grid_n", jNat d.cfg.1), ("filters_added", jNat d.cfg.2), ("mazes", jList jMaze d.mazes),
+       ("collected", match d.collected with | none => Json.null | some n => jNat n)]
+
+def jPayload : Payload Mu → Json
+  | .full ms => obj [("kind", "full"), ("n", jNat ms.length)]
+  | .minimal g cl lens sols => obj [("kind", "minimal"), ("g", jNat g), ("clists", jList (fun c => Json.str (stringOfBits c)) cl),
+      ("lens", jInts lens), ("sols", jList jCells sols)]
+  | .cat g cl ends lens concat => obj [("kind", "cat"), ("g", jNat g), ("clists", jList (fun c => Json.str (stringOfBits c)) cl),
+      ("endpoints", jList (fun e => Json.arr #[jCell e.1, jCell e.2]) ends), ("lens", jInts lens), ("concat", jCells concat)]
+
+def jExcept {α} (f : α → Json) : Except Err α → Json
+  | .ok a => obj [("ok", f a)]
+  | .error e => obj [("err", Json.str e.name)]
+
+/-- serialize with the named method, then `load` (in memory) and `read` (through the handler) under `loadThr` -/
+def roundTrip (name : String) (pad : Nat → Nat → Coord) (loadThr : Option Int) (ds : DS K Mu M) : Json :=
+  match runSerializer env pad name ds with
+  | .error e => obj [("ser_err", Json.str e.name)]
+  | .ok (post, st) =>
+    obj [("fmt", Json.str st.fmt), ("post", jDS post), ("payload", jPayload st.payload),
+         ("stored_filters_added", jNat st.cfg.2),
+         ("stored_collected", match st.collected with | none => Json.null | some n => jNat n),
+         ("load", jExcept jDS (load env loadThr st)), ("read", jExcept jDS (read env loadThr st))]
+
+def jOptStr : Option String → Json
+  | none => Json.null
+  | some s => Json.str s
+
+def asPyKey (j : Json) : R PyKey := do
+  let t ← getStr j "t"
+  match t with
+  | "b" => pure (.b (← getBool j "v"))
+  | "i" => pure (.i (← getInt j "v"))
+  | "s" => pure (.s (← getStr j "v"))
+  | "t" => pure (.t (← getIntList j "v"))
+  | "f" => pure (.f (← getStr j "v"))
+  | _ => throw s!"unknown key kind {t}"
+
+def handle (op : String) (j : Json) : R Json := do
   match op with
+  | "C05.dataset" =>
+    -- {grid_n, mazes, collected, pad?, load_thr?} → the three formats, each serialised, loaded and read
+    let ds ← asDS j
+    let lens := ds.mazes.map (·.sol.length)
+    let pad ← asPad j lens
+    let lthr ← getThr j "load_thr"
+    pure <| obj [("full", roundTrip "_serialize_full" pad lthr ds),
+                 ("minimal", roundTrip "_serialize_minimal" pad lthr ds),
+                 ("cat", roundTrip "_serialize_minimal_soln_cat" pad lthr ds)]
+  | "C05.dispatch" =>
+    -- {len, thresholds:[null|int]} → serializer picked, format written, loader and zanj handler for that format
+    let n ← getNat j "len"
+    let thrs ← (← getArr j "thresholds").mapM asThr
+    let rows := thrs.map fun t =>
+      let ser := serializerName t n
+      let fmt := match fmtOf ser with | .ok f => some f | .error _ => none
+      obj [("serializer", Json.str ser), ("fmt", jOptStr fmt),
+           ("loader", jOptStr (fmt.bind (loaderName t))), ("handler", jOptStr (fmt.bind selectHandler))]
+    pure <| obj [("rows", Json.arr rows.toArray),
+                 ("unknown_fmt_loader", jOptStr (loaderName none "MazeDataset:nonsense")),
+                 ("unknown_raises", Json.str MZ.Gen.Serial.loadUnknownRaises),
+                 ("collection_handler", jOptStr (selectHandler MZ.Gen.Serial.collectionFormat))]
+  | "C05.collection" =>
+    -- {members:[dataset], thr, collected} → per-member format, new member states, loaded members / error
+    let members ← (← getArr j "members").mapM asDS
+    let thr ← getThr j "thr"
+    let coll ← getBool j "collected"
+    match serializeColl env thr (fun _ _ _ => (0, 0)) members (if coll then some 0 else none) with
+    | .error e => pure <| obj [("ser_err", Json.str e.name)]
+    | .ok (post, st) =>
+      let ld := loadColl env thr st
+      pure <| obj [("fmt", Json.str st.fmt), ("member_fmts", jStrs (st.members.map (·.fmt))), ("post", jList jDS post),
+                   ("cfg_filters_added", jNats (st.memberCfgs.map (·.2))),
+                   ("handler", jOptStr (selectHandler st.fmt)),
+                   ("load", jExcept (fun r => obj [("cfg_filters_added", jNats (r.1.map (·.2))), ("members", jList jDS r.2.1),
+                                                   ("collected", Json.bool r.2.2.isSome)]) ld)]
+  | "C05.meta" =>
+    -- {meta:[[field,[[key,count],...]],...]} → json_serialize'd dict as ordered pairs
+    let fields ← (← getArr j "meta").mapM fun f => do
+      match (← f.getArr?).toList with
+      | [k, cnts] =>
+        let cs ← (← cnts.getArr?).toList.mapM fun c => do
+          match (← c.getArr?).toList with
+          | [key, n] => pure ((← asPyKey key), (← n.getNat?))
+          | _ => throw "meta: expected [key,count]"
+        pure ((← k.getStr?), cs)
+      | _ => throw "meta: expected [field,counts]"
+    let out := jsonMeta fields
+    pure <| obj [("json", jList (fun (p : String × List (String × Nat)) =>
+      Json.arr #[Json.str p.1, jList (fun (q : String × Nat) => Json.arr #[Json.str q.1, jNat q.2]) p.2]) out)]
   | _ => throw s!"unknown op {op}"
 
 end MZ.Drv.C05
